@@ -168,8 +168,8 @@ def run_check(prop: str, fn, tier: str, replay: Optional[str] = None) -> int:
         print(f"KNOWN-FINDING: property={prop} rule={f.rule} key={f.key} at {f.file}:{f.line} - {k.get('what', f.msg)}")
 
     replay_path = None
-    if unknown and status == 0:
-        status = 1
+    if unknown:
+        status = 1  # a located violation outranks an analysis error raised later in the same run
     if unknown:
         os.makedirs(os.path.join(VERIF, "replay"), exist_ok=True)
         replay_path = os.path.join(VERIF, "replay", f"{prop}.json")
